@@ -703,8 +703,7 @@ EGLPNUM_TYPENAME_QSLIB_INTERFACE EGLPNUM_TYPENAME_QSdata *EGLPNUM_TYPENAME_QSrea
 
 	if ((file = EGioOpen (filename, "r")) == 0)
 	{
-		perror (filename);
-		QSlog("Unable to open \"%s\" for input.", filename);
+		QSlog("Unable to open \"%s\" for input: %s.", filename, strerror (errno));
 	}
 	if (file == NULL)
 		goto CLEANUP;
